@@ -59,6 +59,7 @@ pub enum ConvProp {
     C02,
     C03,
     C04,
+    C14,
 }
 
 impl ConvProp {
@@ -68,6 +69,7 @@ impl ConvProp {
             ConvProp::C02 => "C02",
             ConvProp::C03 => "C03",
             ConvProp::C04 => "C04",
+            ConvProp::C14 => "C14",
         }
     }
 }
@@ -178,6 +180,74 @@ fn observe(c: &C, prop: ConvProp, step: usize, what: &str, st: &mut St) -> Resul
     }
     let _ = take_bad();
     let keys: BTreeSet<u16> = walked.iter().map(|e| e.0).collect();
+    if prop == ConvProp::C14 {
+        // a converted cache is a reachable state like any other: every shared iterator family
+        // yields exactly len() entries, each key once, the *_lru variants are the exact reverses,
+        // keys/values are the projections, hints are exact, and a walk from both ends meets
+        let n = c.len();
+        let bad = |why: String| v(prop, step, "iter", format!("{what}: {why}; iter() = {:?}, iter_lru() = {:?}, len() = {n}", walked, back));
+        let mut rev = back.clone();
+        rev.reverse();
+        if walked.len() != n || back.len() != n {
+            return Err(bad(format!("iter() yields {} and iter_lru() {} items", walked.len(), back.len())));
+        }
+        if keys.len() != walked.len() {
+            return Err(bad("an entry is yielded twice".into()));
+        }
+        if rev != walked {
+            return Err(bad("iter_lru() is not the exact reverse of iter()".into()));
+        }
+        if c.iter().size_hint() != (n, Some(n)) || c.iter_lru().size_hint() != (n, Some(n)) || c.iter().len() != n || c.iter().count() != n {
+            return Err(bad(format!("size_hint / len / count of a fresh iterator: {:?} / {} / {}", c.iter().size_hint(), c.iter().len(), c.iter().count())));
+        }
+        let ks: Vec<u16> = c.keys().map(|k| k.read()).collect();
+        let ksl: Vec<u16> = c.keys_lru().map(|k| k.read()).collect();
+        let vs: Vec<u32> = c.values().map(|x| x.read()).collect();
+        let vsl: Vec<u32> = c.values_lru().map(|x| x.read()).collect();
+        if ks != walked.iter().map(|e| e.0).collect::<Vec<_>>() || vs != walked.iter().map(|e| e.1).collect::<Vec<_>>() || ksl != back.iter().map(|e| e.0).collect::<Vec<_>>() || vsl != back.iter().map(|e| e.1).collect::<Vec<_>>() {
+            return Err(bad(format!("keys/values are not the projections: keys {:?} keys_lru {:?} values {:?} values_lru {:?}", ks, ksl, vs, vsl)));
+        }
+        let into: Vec<(u16, u32)> = c.into_iter().map(|(k, val)| (k.read(), val.read())).collect();
+        if into != walked {
+            return Err(bad(format!("(&cache).into_iter() yields {:?}", into)));
+        }
+        // alternate the two ends of every entry family until both report the end
+        for lru in [false, true] {
+            let (mut front, mut tail): (Vec<(u16, u32)>, Vec<(u16, u32)>) = (vec![], vec![]);
+            let mut step_items = |f: &mut dyn FnMut(bool) -> Option<(u16, u32)>| {
+                let mut from_front = true;
+                let mut nones = 0;
+                while nones < 2 && front.len() + tail.len() <= n + 2 {
+                    match f(from_front) {
+                        Some(e) => {
+                            nones = 0;
+                            if from_front {
+                                front.push(e)
+                            } else {
+                                tail.push(e)
+                            }
+                        }
+                        None => nones += 1,
+                    }
+                    from_front = !from_front;
+                }
+            };
+            if lru {
+                let mut it = c.iter_lru();
+                step_items(&mut |ff| if ff { it.next() } else { it.next_back() }.map(|(k, val)| (k.read(), val.read())));
+            } else {
+                let mut it = c.iter();
+                step_items(&mut |ff| if ff { it.next() } else { it.next_back() }.map(|(k, val)| (k.read(), val.read())));
+            }
+            tail.reverse();
+            front.extend(tail);
+            let want = if lru { &back } else { &walked };
+            if &front != want {
+                return Err(bad(format!("alternating next / next_back on {} yields (front part, then back part reversed) {:?}", if lru { "iter_lru()" } else { "iter()" }, front)));
+            }
+        }
+        let _ = take_bad();
+    }
     if prop == ConvProp::C01 {
         if c.len() != walked.len() || keys.len() != walked.len() || c.len() > c.cap() || c.is_empty() != walked.is_empty() {
             return Err(v(prop, step, "len", format!("{what}: len() = {}, cap() = {}, is_empty() = {}, entries walked {:?}", c.len(), c.cap(), c.is_empty(), walked)));
@@ -217,6 +287,24 @@ fn observe(c: &C, prop: ConvProp, step: usize, what: &str, st: &mut St) -> Resul
     Ok(())
 }
 
+/// the mutable families of a converted cache: exactly len() items, mutual reverses, and the same
+/// entries as the shared walk
+fn mut_iters(c: &mut C, step: usize, items: &[u16]) -> Result<(), Violation> {
+    let n = c.len();
+    let shared: Vec<(u16, u32)> = c.iter().map(|(k, val)| (k.read(), val.read())).collect();
+    let m: Vec<(u16, u32)> = c.iter_mut().map(|(k, val)| (k.read(), val.read())).collect();
+    let mut ml: Vec<(u16, u32)> = c.iter_lru_mut().map(|(k, val)| (k.read(), val.read())).collect();
+    let vm: Vec<u32> = c.values_mut().map(|x| x.read()).collect();
+    let mut vml: Vec<u32> = c.values_lru_mut().map(|x| x.read()).collect();
+    ml.reverse();
+    vml.reverse();
+    let _ = take_bad();
+    if m.len() != n || m != shared || ml != shared || vm != shared.iter().map(|e| e.1).collect::<Vec<_>>() || vml != vm {
+        return Err(v(ConvProp::C14, step, "iter-mut", format!("step {step} (source keys {:?}): len() = {n}, iter() = {:?}, iter_mut() = {:?}, iter_lru_mut() reversed = {:?}, values_mut() = {:?}, values_lru_mut() reversed = {:?}", items, shared, m, ml, vm, vml)));
+    }
+    Ok(())
+}
+
 fn run_inner(case: &ConvCase, prop: ConvProp, rep: &mut CaseReport) -> Result<(), Violation> {
     let items: Vec<(TKey, TVal)> = case.items.iter().enumerate().map(|(j, k)| (TKey::new(*k), TVal::new(INIT + j as u32))).collect();
     let mut st = St { allowed: BTreeMap::new() };
@@ -227,6 +315,10 @@ fn run_inner(case: &ConvCase, prop: ConvProp, rep: &mut CaseReport) -> Result<()
     let mut c = build(case.form, items);
     let what0 = format!("after RawLRU::from / collect ({}) of pairs with keys {:?}", FORMS[(case.form % FORMS.len() as u8) as usize], case.items);
     observe(&c, prop, 0, &what0, &mut st)?;
+    if prop == ConvProp::C14 {
+        mut_iters(&mut c, 0, &case.items)?;
+        rep.nontrivial = distinct.len() < case.items.len() && c.len() >= 2;
+    }
     let _ = distinct;
     for (i, op) in case.ops.iter().enumerate() {
         rep.steps = i + 1;
@@ -268,6 +360,9 @@ fn run_inner(case: &ConvCase, prop: ConvProp, rep: &mut CaseReport) -> Result<()
             }
         }
         observe(&c, prop, i + 1, &format!("step {i} {op:?} (source keys {:?}, {})", case.items, FORMS[(case.form % FORMS.len() as u8) as usize]), &mut st)?;
+        if prop == ConvProp::C14 {
+            mut_iters(&mut c, i + 1, &case.items)?;
+        }
     }
     drop(c);
     if prop == ConvProp::C04 {
